@@ -1779,18 +1779,19 @@ func runTool(c *core.Ctx, g *gen) {
 			go func() { defer conn.Close(); _ = agent.ServeAgent(keyring, conn) }()
 		}
 	}()
-	local, err := yubiagent.NewServer(sock, false)
-	if err != nil {
-		c.Native("yubiagent.NewServer(sock, false) failed with yubico-piv-tool on PATH: "+err.Error(), nil)
-		return
-	}
-	defer local.Close()
+	// several servers in one process, the remote-mode one first: each keeps its own mode and its own tool
 	remote, err := yubiagent.NewServer(sock, true)
 	if err != nil {
 		c.Native("yubiagent.NewServer(sock, true) failed: "+err.Error(), nil)
 		return
 	}
 	defer remote.Close()
+	local, err := yubiagent.NewServer(sock, false)
+	if err != nil {
+		c.Native("yubiagent.NewServer(sock, false) failed with yubico-piv-tool on PATH: "+err.Error(), nil)
+		return
+	}
+	defer local.Close()
 	setTool := func(out []byte, code int) {
 		os.WriteFile(filepath.Join(dir, "out"), out, 0o644)
 		os.WriteFile(filepath.Join(dir, "exitcode"), []byte(fmt.Sprint(code)), 0o644)
